@@ -78,7 +78,7 @@ class C09(Check):
 
     def exhaustive(self, ctx, env):
         depth = ctx.n(2, 3)
-        sample3 = ctx.n(1500, 0)
+        sample3 = ctx.n(900, 0)
         rng = ctx.sub_rng('exh')
         count = [0]
 
@@ -113,6 +113,8 @@ class C09(Check):
         alph = ['charset', 'import', 'namespace', 'variables', 'style', 'comment', 'unknown']
         rank = {'charset': 0, 'import': 1, 'namespace': 2, 'variables': 3, 'style': 4}
         rng = ctx.sub_rng('valid-sheets')
+        half = ctx.sub_rng('valid-sheets-ins')   # quick tier: insertRule at every index into the longest sheets for the
+        # kinds with a position scan, and for a sample of the others (all of them in the thorough tier)
 
         def valid(seq):
             last = -1
@@ -139,11 +141,14 @@ class C09(Check):
                     s = ops_mod.basic_spec(k)
                     env.history([base, ('add', s, 0)], kind='valid-sheet-add')
                     count += 1
-                    if n <= full:
+                    if n <= full and (n < full or ctx.tier_counts != 'quick' or k in ('namespace', 'variables', 'import', 'charset')
+                                      or half.random() < 0.4):
                         for i in range(n + 1):
-                            env.history([base, ('ins', s, i, 0)], kind='valid-sheet-ins')
+                            # (quick tier: the serialise + reparse oracle on a third of these; all of them have it after `add`)
+                            rp = ctx.tier_counts != 'quick' or half.random() < 0.33
+                            env.history([base, ('ins', s, i, 0)], kind='valid-sheet-ins', reparse=rp)
                             if k in ('namespace', 'variables', 'import', 'charset'):
-                                env.history([base, ('insord', s, i, 0)], kind='valid-sheet-insord')
+                                env.history([base, ('insord', s, i, 0)], kind='valid-sheet-insord', reparse=rp)
                             count += 1
         ctx.notes['valid_sheet_histories'] = count
 
